@@ -30,7 +30,7 @@ for name in names:
             if blk:
                 print(f"CORPUS {pid} {blk.group(2)} # {blk.group(1)}# seeded/{name}", flush=True)
             else:
-                b2 = re.search(r"^CONFIG  (\w+)\nCASE    (.*)\nIMPL .*\n(?:MODEL .*\n)?MONITOR (?!no property failure)", t, re.M)
+                b2 = re.search(r"^CONFIG  (\w+)\nCASE    (.*)\n(?:IMPL .*\n)?(?:MODEL .*\n)?MONITOR (?!no property failure)", t, re.M)
                 if b2:
                     print(f"CORPUS {pid} {b2.group(2)} # {b2.group(1)}# seeded/{name}", flush=True)
                 else:
